@@ -376,7 +376,8 @@ impl Pipeline {
         let mut receivers: Vec<Option<mpsc::Receiver<T>>> = Vec::new();
         for _ in 0..(num_stages - 1) {
             // One less channel than stages
-            let (tx, rx) = mpsc::channel(self.config.buffer_size);
+            // tokio panics on a zero-capacity channel; treat a buffer size of 0 as 1
+            let (tx, rx) = mpsc::channel(self.config.buffer_size.max(1));
             senders.push(Some(tx));
             receivers.push(Some(rx));
         }
